@@ -229,6 +229,9 @@ func checkC07(c *Ctx) {
 			c.Rep.Fatal(err.Error())
 			return
 		}
+		if projReplay(c, raw, "diagnostics") {
+			return
+		}
 		jb := c07Build(1, raw)
 		jb.Raw = raw
 		p := c.NewPool(1)
@@ -304,6 +307,8 @@ func checkC07(c *Ctx) {
 			}
 			c.Rep.Violation(j.Raw, desc)
 		})
+	// Project.tla: workspaces analysed as a project (entry file + what it requires), both modes
+	projectRuns(c, p, 0, "diagnostics")
 	c.poolStats(p)
 	if surveyMode {
 		sv.dump()
